@@ -2,7 +2,7 @@
 configuration into /verif/build/<config>-<hash>/libshim.so.  <hash> covers every
 file under /repo/src, /repo/include, /repo/contrib, the shim sources and the
 flags, so any edit of the working tree rebuilds and an unchanged tree reuses."""
-import hashlib, os, subprocess, sys, fcntl, shutil, time
+import hashlib, os, subprocess, sys, shutil, time
 
 REPO = os.environ.get("VERIF_REPO", "/repo")
 VERIF = os.path.dirname(os.path.dirname(os.path.abspath(__file__)))
@@ -75,52 +75,64 @@ def source_hash():
     return _src_hash_cache
 
 
-def build(name, extra_src=None, quiet=True):
-    """Return path of libshim.so for configuration `name`, building it if needed."""
+def _plan(name):
     cc, flags = CONFIGS[name]
     h = hashlib.sha256((source_hash() + cc + " ".join(flags + COMMON)).encode()).hexdigest()[:16]
     d = os.path.join(BUILD, "%s-%s" % (name, h))
     so = os.path.join(d, "libshim.so")
-    if os.path.exists(so):
-        return so
-    os.makedirs(d, exist_ok=True)
-    lock = open(os.path.join(d, ".lock"), "w")
-    fcntl.flock(lock, fcntl.LOCK_EX)
+    # undefined symbols must be a link error (not a dlopen surprise); the sanitizer runtime is resolved at load time
+    nodefs = [] if "-fsanitize=address,undefined" in flags else ["-Wl,-z,defs"]
+    tmp = so + ".tmp.%d" % os.getpid()
+    cmd = [cc] + COMMON + flags + nodefs + ["-I", REPO, "-I", os.path.join(REPO, "src"), "-I", SHIM_DIR, "-I", os.path.join(REPO, "contrib"),
+                                           "-I", os.path.join(REPO, "include"), os.path.join(SHIM_DIR, "shim.c"), "-o", tmp]
+    return d, so, tmp, cmd
+
+
+def _prune(name, keep):
+    """drop builds of the same configuration that have not been touched for an hour (disk hygiene; never races a live build)"""
     try:
-        if os.path.exists(so):
-            return so
-        # drop stale builds of the same configuration (disk hygiene)
         for e in os.listdir(BUILD):
-            if e.startswith(name + "-") and e != os.path.basename(d) and e[len(name) + 1:].isalnum() and len(e) == len(name) + 17:
+            if e.startswith(name + "-") and e != keep and len(e) == len(name) + 17 and e[len(name) + 1:].isalnum():
                 try:
                     old = time.time() - os.path.getmtime(os.path.join(BUILD, e)) > 3600
                 except OSError:
                     old = False
-                if old:  # never remove a directory another process may still be compiling into
+                if old:
                     shutil.rmtree(os.path.join(BUILD, e), ignore_errors=True)
-        # undefined symbols must be a link error (not a dlopen surprise); the sanitizer runtime is resolved at load time
-        nodefs = [] if "-fsanitize=address,undefined" in flags else ["-Wl,-z,defs"]
-        cmd = [cc] + COMMON + flags + nodefs + ["-I", REPO, "-I", os.path.join(REPO, "src"), "-I", SHIM_DIR, "-I", os.path.join(REPO, "contrib"), "-I", os.path.join(REPO, "include"),
-                                        os.path.join(SHIM_DIR, "shim.c"), "-o", so + ".tmp"]
-        t0 = time.time()
-        r = subprocess.run(cmd, capture_output=True, text=True)
-        if r.returncode != 0:
-            sys.stderr.write("BUILD FAILED (%s):\n%s\n%s\n" % (name, " ".join(cmd), r.stderr[-4000:]))
-            raise SystemExit(2)
-        os.rename(so + ".tmp", so)
-        if not quiet:
-            sys.stderr.write("built %s in %.1fs\n" % (name, time.time() - t0))
-        return so
-    finally:
-        fcntl.flock(lock, fcntl.LOCK_UN)
-        lock.close()
+    except OSError:
+        pass
 
 
 def build_many(names):
-    """Build several configurations in parallel (processes); returns {name: path}."""
-    import concurrent.futures as cf
-    with cf.ThreadPoolExecutor(max_workers=min(16, len(names))) as ex:
-        return dict(zip(names, ex.map(build, names)))
+    """Build several configurations concurrently as child processes (NO threads: the callers fork workers later, and a
+    fork while another thread holds the sanitizer allocator lock deadlocks the child).  Returns {name: path}."""
+    res, running = {}, []
+    for name in dict.fromkeys(names):
+        d, so, tmp, cmd = _plan(name)
+        res[name] = so
+        if os.path.exists(so):
+            try:
+                os.utime(d, None)
+            except OSError:
+                pass
+            continue
+        os.makedirs(d, exist_ok=True)
+        _prune(name, os.path.basename(d))
+        running.append((name, so, tmp, cmd, subprocess.Popen(cmd, stdout=subprocess.DEVNULL, stderr=subprocess.PIPE, text=True)))
+    for name, so, tmp, cmd, p in running:
+        _, err = p.communicate()
+        if p.returncode != 0:
+            if os.path.exists(so):      # somebody else finished the same build meanwhile
+                continue
+            sys.stderr.write("BUILD FAILED (%s):\n%s\n%s\n" % (name, " ".join(cmd), (err or "")[-4000:]))
+            raise SystemExit(2)
+        os.rename(tmp, so)              # atomic publish; concurrent builders of the same hash produce identical files
+    return res
+
+
+def build(name, extra_src=None, quiet=True):
+    """Return path of libshim.so for configuration `name`, building it if needed."""
+    return build_many([name])[name]
 
 
 if __name__ == "__main__":
